@@ -53,7 +53,7 @@ def discipline(f, takes):
     """how a stage takes elements from its Vec: 'LIFO' (pop), 'FIFO' (remove(0) / pop_front), else None"""
     kinds = set()
     for c in takes:
-        if c.name == "pop":
+        if c.name in ("pop", "pop_if"):
             kinds.add("LIFO")
         elif c.name == "pop_front":
             kinds.add("FIFO")
@@ -76,7 +76,7 @@ def c10a(ck, prog):
     ok = len(pushes) == 1 and not bad
     ck.ob(R, "parse:appends-in-order", ok, parse.loc(pushes[0].sp if pushes else None), "" if ok else "Multipart::parse does not simply append each part (%d push site(s), reordering calls %r)" % (len(pushes), bad), how="parts.push(part) once per part, no reordering")
     # stage 1: Multipart::next takes parts from the list
-    takes = [(c, d) for c, d in vec_calls(nxt, r"arg1\.0") if c.name in ("pop", "remove", "swap_remove", "drain", "pop_front") or c.name in FRONT_OR_REORDER]
+    takes = [(c, d) for c, d in vec_calls(nxt, r"arg1\.0") if c.name in ("pop", "pop_if", "remove", "swap_remove", "drain", "pop_front") or c.name in FRONT_OR_REORDER]
     disc = discipline(nxt, [c for c, _ in takes])
     ok = disc in ("LIFO", "FIFO")
     if disc == "LIFO":
@@ -86,7 +86,7 @@ def c10a(ck, prog):
     # stage 2: the group of same-name files is built by appending in the order taken
     gp = [c for c in nxt.calls() if c.name == "push" and re.search(r"^alloc::vec::Vec", c.callee or "") and not re.search(r"arg1\.0", decision.describe_deep(nxt, c.args[0], 4))]
     gbad = [c.name for c in nxt.calls() if c.name in FRONT_OR_REORDER and re.search(r"^alloc::vec::Vec|^core::slice::<impl \[T\]>::", c.callee or "")]
-    ok = len(gp) == 1 and not gbad and "pop(" in decision.describe_deep(nxt, gp[0].args[1], 4)
+    ok = len(gp) == 1 and not gbad and re.search(r"\bpop(_if)?\(", decision.describe_deep(nxt, gp[0].args[1], 4)) is not None
     ck.ob(R, "next:group-appends", ok, nxt.loc(gp[0].sp if gp else None), "" if ok else "the group of same-name files is not built by appending the popped files (%d push site(s), reordering calls %r)" % (len(gp), gbad), how="files = vec![first]; files.push(popped)")
     # stage 3: delivery of the group
     stakes = [c for c in seq.calls() if re.search(r"^alloc::vec::Vec", c.callee or "") and (c.name in ("pop", "remove", "swap_remove", "drain") or c.name in FRONT_OR_REORDER)]
@@ -105,10 +105,48 @@ def c10a(ck, prog):
 def c10b(ck, prog):
     R = "C10-b PAIR delimiter CRLF"
     parse = prog.one(MP + r"Multipart::<'de>::parse$")
+    parse = prog.inlined(parse, 2, r"Reader::<'r>::read_until$")      # the content step may be a local helper
     bodies = [parse] + prog.descendants(parse.key)
     frp = [(g, c) for g in bodies for c in g.calls() if c.name == "from_raw_parts"]
+    pushes_ = [c for c in parse.calls() if c.name == "push" and re.search(r"^alloc::vec::Vec", c.callee or "")]
+    ss = [c for c in parse.calls() if c.name == "strip_suffix" and re.search(r"^core::slice::<impl \[T\]>::strip_suffix$", c.callee or "")]
+    if not frp and len(ss) == 1:
+        # equivalent safe form: content = read_until(boundary).strip_suffix(CRLF)?  -- std removes exactly the suffix and
+        # answers None unless the slice ends with it
+        c = ss[0]
+        recv = paths.root_call(parse, c.args[0])
+        suf = (parse.const_args(c) + [None, None])[1]
+        ok = recv is not None and recv.name == "read_until" and "read_until(" in decision.describe_deep(parse, recv.args[1], 3) and suf is not None and suf.get("s") == "\r\n"
+        ck.ob(R, "content:extent", ok, parse.loc(c.sp), "" if ok else "the content is `%s`, expected read_until(boundary).strip_suffix(CRLF)" % decision.describe_deep(parse, ["c", c.dest], 4)[:80],
+              how="content = read_until(boundary).strip_suffix(b\"\\r\\n\")")
+        # the part is accepted only with the Some answer of strip_suffix, and its content is that payload
+        def under_some(bb):
+            for fa in guards.facts_at(parse, prog, bb):
+                st_ = getattr(fa, "steps", None)
+                if fa.kind != "variant" or fa.allowed not in ({"Some"}, {"Ok"}, {"Continue"}) or not st_ or st_[-1][0] != "call":
+                    continue
+                cc = st_[-1][1]
+                if cc.bb == c.bb:
+                    return True
+                # `strip_suffix(..).ok_or_else(..)?`: Ok / Continue of a call fed by it
+                x, hops = cc, 0
+                while x is not None and x.args and hops < 4:
+                    x = paths.root_call(parse, x.args[0])
+                    hops += 1
+                    if x is not None and x.bb == c.bb:
+                        return True
+            return False
+        # a spliced-in helper returns through several sites: the part is pushed only after the one that answers Ok(content)
+        anchors = lambda bb: [bb] + paths.consistent_def_blocks(parse, prog, bb)
+        ok = bool(pushes_) and all(any(under_some(x) for x in anchors(p.bb)) for p in pushes_)
+        ck.ob(R, "delimiter-CRLF:verified", ok, parse.loc(c.sp), "" if ok else "a part is accepted on a path where strip_suffix(CRLF) did not answer Some", how="part pushed only under the Some answer of strip_suffix(CRLF)")
+        ru = [x for x in parse.calls() if x.name == "read_until" and "read_until(" in decision.describe_deep(parse, x.args[1], 3)]
+        co = [x for x in parse.calls() if x.name == "consume" and "read_until(" in decision.describe_deep(parse, x.args[1], 3)]
+        ok = len(ru) == 1 and len(co) == 1 and parse.dominates(ru[0].bb, co[0].bb) and all(any(parse.dominates(co[0].bb, x) for x in anchors(p.bb)) for p in pushes_)
+        ck.ob(R, "delimiter:consumed", ok, parse.loc(co[0].sp if co else None), "" if ok else "the delimiter is not consumed after the content was cut in front of it", how="read_until(boundary) ; consume(boundary) ; push(part)")
+        return
     if len(frp) != 2:
-        raise AnchorLost("expected the two from_raw_parts of the content/CRLF split in Multipart::parse, found %d" % len(frp))
+        raise AnchorLost("expected the two from_raw_parts of the content/CRLF split in Multipart::parse (or one strip_suffix(CRLF)), found %d / %d" % (len(frp), len(ss)))
     g = frp[0][0]
     descs = [(decision.describe_deep(g, c.args[0], 5), decision.describe_deep(g, c.args[1], 6)) for _, c in frp]
     # first: (ptr, len - CRLF.len()); second: (ptr + mid, CRLF.len())
